@@ -47,6 +47,7 @@ def plan(tier):
         {"h": "num_floor_remainder_edge", "spec": 0, "sym": "x within 3 of isize::MIN/MAX, |y| <= 3"},
         {"h": "num_euclidean_remainder_ii", "spec": 0, "sym": "|x| <= 2^12, |y| <= 2^6"},
         {"h": "sym_rollback_redef_1", "spec": 1, "sym": "f1 in {1,2,3}"},
+        {"h": "sym_rollback_redef_twice", "spec": 1, "sym": "name 1 defined three times; f1 in {1,2,3}"},
     ]
     return q + ((t + IDX_T) if tier == "thorough" else [])
 
